@@ -28,6 +28,7 @@ type Case struct {
 	FEN   string   `json:"fen,omitempty"`
 	Moves []string `json:"moves,omitempty"`
 	Bad   string   `json:"bad,omitempty"`
+	Prev  string   `json:"prev,omitempty"` // text: parsed into the same Board value before FEN (the tuner reuses one board)
 	Raw   []byte   `json:"raw,omitempty"`
 }
 
@@ -109,6 +110,27 @@ func checkText(c Case, rec *evid.Rec) error {
 	}
 	if nb.FEN() != c.FEN {
 		return fmt.Errorf("ParseFEN then FEN() = %q for %q", nb.FEN(), c.FEN)
+	}
+	if c.Prev != "" {
+		// a Board value that already holds another position (ParseFEN documents that it fills in *b)
+		var rb board.Board
+		if err := board.ParseFEN(&rb, []byte(c.Prev)); err != nil {
+			return fmt.Errorf("ParseFEN rejects canonical FEN %q: %v", c.Prev, err)
+		}
+		if err := board.ParseFEN(&rb, []byte(c.FEN)); err != nil {
+			return fmt.Errorf("ParseFEN rejects canonical FEN %q when the board held %q before: %v", c.FEN, c.Prev, err)
+		}
+		if rb.FEN() != c.FEN {
+			return fmt.Errorf("ParseFEN(%q) into a board that held %q before reads %q", c.FEN, c.Prev, rb.FEN())
+		}
+		rb.ResetHash()
+		nb.ResetHash()
+		if d := sameBoards(&rb, &nb); d != "" {
+			return fmt.Errorf("ParseFEN(%q) into a board that held %q before differs from a fresh parse: %s", c.FEN, c.Prev, d)
+		}
+		if rec != nil {
+			rec.Class("text_parsed_into_reused_board")
+		}
 	}
 	if rec != nil {
 		rec.Eval(1)
@@ -334,6 +356,10 @@ func TestC11(t *testing.T) {
 				rec.Class("text_ep_target")
 			}
 			c := Case{Kind: "text", FEN: p.FEN()}
+			if gen.Chance(t, 1, 2, "reuse") {
+				r2, _ := gen.Root(t)
+				c.Prev = r2.FEN()
+			}
 			if rec.WantSample("text") {
 				rec.Sample("text", c)
 			}
